@@ -4,8 +4,8 @@
     python3 translate/c2lean_regs.py            regenerate lean/ScpiVerif/Gen/RegsC.lean from $VERIF_REPO/libscpi/src/ieee488.c
     python3 translate/c2lean_regs.py --stdout   print the generated text instead
 
-Translated: SCPI_RegGet, writeControl, SCPI_RegSet, SCPI_RegSetBits, SCPI_RegClearBits and every function of ieee488.c they
-call (a static helper a refactoring introduces is picked up by itself).  The theorems of lean/ScpiVerif/Lemmas/RegsC.lean prove
+Translated: SCPI_RegGet, SCPI_RegSet, SCPI_RegSetBits, SCPI_RegClearBits and every function of ieee488.c they call (today:
+writeControl; a static helper a refactoring introduces is picked up by itself).  The theorems of lean/ScpiVerif/Lemmas/RegsC.lean prove
 that the GENERATED definitions compute what the hand-written model ScpiVerif.Regs (Model/Regs.lean) computes, for every state,
 register name and 16-bit value, so a semantic change of these C functions breaks a proof.  Reused from translate/c2lean.py:
 the clang invocation, `Unsupported`, source locations, the stub writer, the keyword list.
@@ -73,7 +73,7 @@ from c2lean import Unsupported, clang_ast, loc_of, LEAN_KEYWORDS, walk
 
 VERIF = os.path.dirname(HERE)
 NAMESPACE = "ScpiVerif.Gen.RegsC"
-TARGETS = ["SCPI_RegGet", "writeControl", "SCPI_RegSet", "SCPI_RegSetBits", "SCPI_RegClearBits"]
+TARGETS = ["SCPI_RegGet", "SCPI_RegSet", "SCPI_RegSetBits", "SCPI_RegClearBits"]      # and whatever they call (writeControl)
 # initial fuel of the loops, by function: (enumerator, offset).  The walk of SCPI_RegSet goes up a hierarchy of at most
 # SCPI_REG_COUNT registers; that this bound suffices for the generated tables is proved in Lean, not assumed.
 FUEL = {"SCPI_RegSet": ("SCPI_REG_COUNT", 1)}
